@@ -238,6 +238,13 @@ impl<T: Types> RaftLog<T> {
 
             let (chunk, records) = Chunk::open(config.clone(), chunk_id)?;
 
+            // What is replayed here may have been written by a process that
+            // died before it synced it. Only the newest chunk is ever synced
+            // again by the FlushWorker, so make every loaded chunk durable
+            // now; otherwise a later acknowledged flush followed by a power
+            // loss can leave a gap in an older chunk.
+            chunk.f.sync_data()?;
+
             for (i, record) in records.into_iter().enumerate() {
                 let start = chunk.global_offsets[i];
                 let end = chunk.global_offsets[i + 1];
